@@ -71,8 +71,6 @@ RECURSIVE SumFn(_, _)
 SumFn(f, S) == IF S = {} THEN 0 ELSE LET x == CHOOSE y \in S : TRUE IN f[x] + SumFn(f, S \ {x})
 RECURSIVE ProdFn(_, _)
 ProdFn(f, S) == IF S = {} THEN 1 ELSE LET x == CHOOSE y \in S : TRUE IN (f[x] * ProdFn(f, S \ {x})) % Q
-RECURSIVE Pow(_, _)
-Pow(x, k) == IF k = 0 THEN 1 ELSE (x * Pow(x, k - 1)) % Q
 InvQ(a) == CHOOSE x \in 1..(Q - 1) : (a * x) % Q = 1
 
 \* sum of f[1..k] (member-indexed sums; much cheaper for TLC than folding over a set)
